@@ -383,3 +383,627 @@ Proof.
   - destruct H as [-> _]. simpl r_share. fold (mul_floor p (dec_percent k)). apply mul_floor_percent.
   - simpl. unfold dec_percent. lia.
 Qed.
+
+(* ================================================================== C09: tokens and freezes *)
+
+(* ------------------------------------------------------------------ token table lemmas *)
+Lemma tfind_in id l t : tfind id l = Some t -> In id (map fst l).
+Proof.
+  induction l as [|[k x] r IH]; simpl; [discriminate|].
+  destruct (k =? id) eqn:E; [apply N.eqb_eq in E; auto | auto].
+Qed.
+
+Lemma tfind_none_notin id l : tfind id l = None <-> ~ In id (map fst l).
+Proof.
+  induction l as [|[k x] r IH]; simpl.
+  - split; auto.
+  - destruct (k =? id) eqn:E.
+    + apply N.eqb_eq in E. split; [discriminate | intros H; exfalso; apply H; auto].
+    + apply N.eqb_neq in E. rewrite IH. split; [intros H [H1|H1]; auto | intros H H1; apply H; auto].
+Qed.
+
+Lemma tfind_tinsert_same id t l : tfind id l = None -> tfind id (tinsert id t l) = Some t.
+Proof.
+  induction l as [|[k x] r IH]; simpl; intros H.
+  - rewrite N.eqb_refl. reflexivity.
+  - destruct (k =? id) eqn:E; [discriminate|].
+    destruct (id <? k); simpl.
+    + rewrite N.eqb_refl. reflexivity.
+    + rewrite E. auto.
+Qed.
+
+Lemma tfind_tinsert_other id id' t l : id' <> id -> tfind id' (tinsert id t l) = tfind id' l.
+Proof.
+  intros Hn. induction l as [|[k x] r IH]; simpl.
+  - apply N.eqb_neq in Hn. rewrite N.eqb_sym in Hn. rewrite Hn. reflexivity.
+  - destruct (id <? k); simpl.
+    + assert (E : id =? id' = false) by (apply N.eqb_neq; auto). rewrite E. reflexivity.
+    + destruct (k =? id'); auto.
+Qed.
+
+Lemma tfind_tupdate_same id t l x : tfind id l = Some x -> tfind id (tupdate id t l) = Some t.
+Proof.
+  induction l as [|[k y] r IH]; simpl; [discriminate|].
+  destruct (k =? id) eqn:E; simpl; rewrite E; auto.
+Qed.
+
+Lemma tfind_tupdate_other id id' t l : id' <> id -> tfind id' (tupdate id t l) = tfind id' l.
+Proof.
+  intros Hn. induction l as [|[k y] r IH]; simpl; [reflexivity|].
+  destruct (k =? id) eqn:E; simpl.
+  - apply N.eqb_eq in E. subst k. assert (E' : id =? id' = false) by (apply N.eqb_neq; auto).
+    rewrite E'. reflexivity.
+  - destruct (k =? id'); auto.
+Qed.
+
+Lemma tfind_tremove_other id id' l : id' <> id -> tfind id' (tremove id l) = tfind id' l.
+Proof.
+  intros Hn. induction l as [|[k y] r IH]; simpl; [reflexivity|].
+  destruct (k =? id) eqn:E; simpl.
+  - apply N.eqb_eq in E. subst k. assert (E' : id =? id' = false) by (apply N.eqb_neq; auto).
+    rewrite E'. reflexivity.
+  - destruct (k =? id'); auto.
+Qed.
+
+Lemma keys_tupdate id t l : map fst (tupdate id t l) = map fst l.
+Proof.
+  induction l as [|[k y] r IH]; simpl; [reflexivity|].
+  destruct (k =? id); simpl; [reflexivity | rewrite IH; reflexivity].
+Qed.
+
+Lemma keys_tinsert id t l k : In k (map fst (tinsert id t l)) <-> k = id \/ In k (map fst l).
+Proof.
+  induction l as [|[k' y] r IH]; simpl.
+  - intuition.
+  - destruct (id <? k'); simpl.
+    + split; intros H; intuition.
+    + rewrite IH. split; intros H; intuition.
+Qed.
+
+Lemma nodup_tinsert id t l : tfind id l = None -> NoDup (map fst l) -> NoDup (map fst (tinsert id t l)).
+Proof.
+  induction l as [|[k y] r IH]; simpl; intros Hf Hn.
+  - constructor; [intros []| constructor].
+  - destruct (k =? id) eqn:E; [discriminate|]. apply N.eqb_neq in E.
+    inversion Hn as [|? ? Hk Hr]; subst.
+    destruct (id <? k); simpl.
+    + constructor; [|exact Hn]. simpl. intros [H|H]; [auto|].
+      apply tfind_none_notin in Hf. auto.
+    + constructor; [|auto]. rewrite keys_tinsert. intros [H|H]; auto.
+Qed.
+
+Lemma keys_tremove_incl id l k : In k (map fst (tremove id l)) -> In k (map fst l).
+Proof.
+  induction l as [|[k' y] r IH]; simpl; [auto|].
+  destruct (k' =? id); simpl; intuition.
+Qed.
+
+Lemma nodup_tremove id l : NoDup (map fst l) -> NoDup (map fst (tremove id l)).
+Proof.
+  induction l as [|[k y] r IH]; simpl; intros Hn; [constructor|].
+  inversion Hn as [|? ? Hk Hr]; subst.
+  destruct (k =? id); simpl; [exact Hr|].
+  constructor; [|auto]. intros H. apply Hk. eapply keys_tremove_incl; eauto.
+Qed.
+
+Lemma tfind_tremove_same id l : NoDup (map fst l) -> tfind id (tremove id l) = None.
+Proof.
+  induction l as [|[k y] r IH]; simpl; intros Hn; [reflexivity|].
+  inversion Hn as [|? ? Hk Hr]; subst.
+  destruct (k =? id) eqn:E; simpl.
+  - apply N.eqb_eq in E. subst k. apply tfind_none_notin. exact Hk.
+  - rewrite E. auto.
+Qed.
+
+Lemma length_tinsert id t l : length (tinsert id t l) = S (length l).
+Proof.
+  induction l as [|[k y] r IH]; simpl; [reflexivity|].
+  destruct (id <? k); simpl; [reflexivity | rewrite IH; reflexivity].
+Qed.
+
+Lemma length_tupdate id t l : length (tupdate id t l) = length l.
+Proof.
+  induction l as [|[k y] r IH]; simpl; [reflexivity|].
+  destruct (k =? id); simpl; [reflexivity | rewrite IH; reflexivity].
+Qed.
+
+Lemma length_tremove id l x : tfind id l = Some x -> length l = S (length (tremove id l)).
+Proof.
+  induction l as [|[k y] r IH]; simpl; [discriminate|].
+  destruct (k =? id); simpl; intros H; [reflexivity | rewrite (IH H); reflexivity].
+Qed.
+
+(* ------------------------------------------------------------------ what each call does to the token table *)
+Definition owner_is (who : addr) (s : state) : Prop := o_owner (own s) = Some who.
+
+Lemma is_minter_true who s : is_minter who s = true -> owner_is who s.
+Proof.
+  unfold is_minter, owner_is. destruct (o_owner (own s)) as [o|]; [|discriminate].
+  intros H. apply N.eqb_eq in H. subst. reflexivity.
+Qed.
+
+Lemma exec_tokens self e o s s' ms :
+  exec self e o s = Ok (s', ms) ->
+  match o with
+  | OMint id owner uri =>
+      owner_is (sender e) s /\ tfind id (tokens s) = None /\
+      tokens s' = tinsert id (mkTok owner [] uri) (tokens s) /\ token_count s' = token_count s + 1
+  | OTransfer to id | OSend to id _ =>
+      exists t, tfind id (tokens s) = Some t /\ check_can_send (now e) (sender e) s t = true /\
+                tokens s' = tupdate id (mkTok to [] (k_uri t)) (tokens s) /\ token_count s' = token_count s
+  | OApprove _ id _ | ORevoke _ id =>
+      exists t aps, tfind id (tokens s) = Some t /\ check_can_approve (now e) (sender e) s t = true /\
+                    tokens s' = tupdate id (mkTok (k_owner t) aps (k_uri t)) (tokens s) /\
+                    token_count s' = token_count s
+  | OBurn id =>
+      exists t, tfind id (tokens s) = Some t /\ check_can_send (now e) (sender e) s t = true /\
+                tokens s' = tremove id (tokens s) /\ token_count s' + 1 = token_count s
+  | OUpdateTokenMd id uri =>
+      exists t, tfind id (tokens s) = Some t /\ ci_creator (info s) = sender e /\
+                md_frozen s = false /\ md_enabled s = true /\ funds e = [] /\
+                tokens s' = tupdate id (mkTok (k_owner t) (k_approvals t) uri) (tokens s) /\
+                token_count s' = token_count s
+  | _ => tokens s' = tokens s /\ token_count s' = token_count s
+  end.
+Proof.
+  intros H.
+  destruct o as [id owner uri|to id|to id accepts|sp id ex|sp id|opr ex|opr|id|m|t| |new ex| | |id uri| | ];
+    simpl in H; try (apply quiet_ok in H; destruct H as [H ->]).
+  - (* mint *) unfold mint in H.
+    destruct (is_minter (sender e) s) eqn:Em; simpl in H; [|discriminate].
+    destruct (tfind id (tokens s)) eqn:Ef; [discriminate|].
+    destruct (U64_MAX <? token_count s + 1); [discriminate|].
+    inversion H; subst; clear H. simpl. auto using is_minter_true.
+  - (* transfer *) unfold transfer in H.
+    destruct (tfind id (tokens s)) as [t|] eqn:Ef; [|discriminate].
+    destruct (check_can_send (now e) (sender e) s t) eqn:Ec; [|discriminate].
+    inversion H; subst; clear H. exists t. simpl. auto.
+  - (* send *) destruct accepts; [|discriminate]. apply quiet_ok in H. destruct H as [H ->].
+    unfold transfer in H.
+    destruct (tfind id (tokens s)) as [t|] eqn:Ef; [|discriminate].
+    destruct (check_can_send (now e) (sender e) s t) eqn:Ec; [|discriminate].
+    inversion H; subst; clear H. exists t. simpl. auto.
+  - (* approve *) unfold approve in H.
+    destruct (tfind id (tokens s)) as [t|] eqn:Ef; [|discriminate].
+    destruct (check_can_approve (now e) (sender e) s t) eqn:Ec; simpl in H; [|discriminate].
+    destruct (is_expired (now e) (exp_default ex)); [discriminate|].
+    inversion H; subst; clear H. exists t. eexists. simpl. auto.
+  - (* revoke *) unfold approve in H.
+    destruct (tfind id (tokens s)) as [t|] eqn:Ef; [|discriminate].
+    destruct (check_can_approve (now e) (sender e) s t) eqn:Ec; simpl in H; [|discriminate].
+    inversion H; subst; clear H. exists t. eexists. simpl. auto.
+  - unfold approve_all in H. crush_handler; simpl; auto.
+  - unfold revoke_all in H. crush_handler; simpl; auto.
+  - (* burn *) unfold burn in H.
+    destruct (tfind id (tokens s)) as [t|] eqn:Ef; [|discriminate].
+    destruct (check_can_send (now e) (sender e) s t) eqn:Ec; simpl in H; [|discriminate].
+    destruct (token_count s =? 0) eqn:Ez; [discriminate|].
+    inversion H; subst; clear H. exists t. simpl. apply N.eqb_neq in Ez. repeat split; auto. lia.
+  - apply uci_ok in H. tauto.
+  - unfold update_start_trading_time in H. crush_handler; simpl; auto.
+  - unfold freeze_collection_info in H. crush_handler; simpl; auto.
+  - unfold own_transfer in H. crush_handler; simpl; auto.
+  - unfold own_accept in H. crush_handler; simpl; auto.
+  - unfold own_renounce in H. crush_handler; simpl; auto.
+  - (* update token metadata *) unfold update_token_metadata in H.
+    apply bind_ok in H. destruct H as [[] [Hp H]].
+    unfold nonpayable in Hp. destruct (funds e) eqn:Efu; [|discriminate].
+    destruct (ci_creator (info s) =? sender e) eqn:Ec; simpl in H; [|discriminate].
+    destruct (md_frozen s) eqn:Emf; [discriminate|].
+    destruct (md_enabled s) eqn:Eme; simpl in H; [|discriminate].
+    destruct (tfind id (tokens s)) as [t|] eqn:Ef; [|discriminate].
+    inversion H; subst; clear H. exists t. simpl. apply N.eqb_eq in Ec. repeat split; auto.
+  - unfold freeze_token_metadata in H. crush_handler; simpl; auto.
+  - unfold enable_updatable in H. crush_handler; simpl; auto.
+Qed.
+
+(* ------------------------------------------------------------------ mint *)
+Lemma mint_ok ct self e id owner uri s s' ms :
+  step ct self e (OMint id owner uri) s = Ok (s', ms) ->
+  o_owner (own s) = Some (sender e) /\ tfind id (tokens s) = None /\
+  tfind id (tokens s') = Some (mkTok owner [] uri) /\
+  (forall id', id' <> id -> tfind id' (tokens s') = tfind id' (tokens s)) /\
+  token_count s' = token_count s + 1.
+Proof.
+  intros H. apply step_exec in H. destruct H as [_ H]. apply exec_tokens in H.
+  destruct H as (Ho & Hf & Ht & Hc). rewrite Ht.
+  split; [exact Ho|]. split; [exact Hf|]. split; [apply tfind_tinsert_same; exact Hf|].
+  split; [intros id' Hn; apply tfind_tinsert_other; exact Hn | exact Hc].
+Qed.
+
+(* a token that did not exist before a call and exists after it was minted by that call,
+   sent by the current minter *)
+Lemma created_only_by_mint ct self e o s s' ms id :
+  step ct self e o s = Ok (s', ms) -> tfind id (tokens s) = None -> tfind id (tokens s') <> None ->
+  exists owner uri, o = OMint id owner uri /\ o_owner (own s) = Some (sender e).
+Proof.
+  intros H Hb Ha. apply step_exec in H. destruct H as [_ H]. apply exec_tokens in H.
+  destruct o as [i owner uri|to i|to i accepts|sp i ex|sp i|opr ex|opr|i|m|t| |new ex| | |i uri| | ].
+  - destruct H as (Ho & Hf & Ht & _). destruct (N.eq_dec id i) as [->|Hn].
+    + eauto.
+    + exfalso. apply Ha. rewrite Ht. rewrite tfind_tinsert_other by exact Hn. exact Hb.
+  - destruct H as (t & Hf & _ & Ht & _). exfalso. apply Ha. rewrite Ht.
+    destruct (N.eq_dec id i) as [->|Hn]; [congruence|]. rewrite tfind_tupdate_other by exact Hn. exact Hb.
+  - destruct H as (t & Hf & _ & Ht & _). exfalso. apply Ha. rewrite Ht.
+    destruct (N.eq_dec id i) as [->|Hn]; [congruence|]. rewrite tfind_tupdate_other by exact Hn. exact Hb.
+  - destruct H as (t & aps & Hf & _ & Ht & _). exfalso. apply Ha. rewrite Ht.
+    destruct (N.eq_dec id i) as [->|Hn]; [congruence|]. rewrite tfind_tupdate_other by exact Hn. exact Hb.
+  - destruct H as (t & aps & Hf & _ & Ht & _). exfalso. apply Ha. rewrite Ht.
+    destruct (N.eq_dec id i) as [->|Hn]; [congruence|]. rewrite tfind_tupdate_other by exact Hn. exact Hb.
+  - destruct H as [Ht _]. exfalso. apply Ha. rewrite Ht. exact Hb.
+  - destruct H as [Ht _]. exfalso. apply Ha. rewrite Ht. exact Hb.
+  - destruct H as (t & Hf & _ & Ht & _). exfalso. apply Ha. rewrite Ht.
+    destruct (N.eq_dec id i) as [->|Hn]; [congruence|]. rewrite tfind_tremove_other by exact Hn. exact Hb.
+  - destruct H as [Ht _]. exfalso. apply Ha. rewrite Ht. exact Hb.
+  - destruct H as [Ht _]. exfalso. apply Ha. rewrite Ht. exact Hb.
+  - destruct H as [Ht _]. exfalso. apply Ha. rewrite Ht. exact Hb.
+  - destruct H as [Ht _]. exfalso. apply Ha. rewrite Ht. exact Hb.
+  - destruct H as [Ht _]. exfalso. apply Ha. rewrite Ht. exact Hb.
+  - destruct H as [Ht _]. exfalso. apply Ha. rewrite Ht. exact Hb.
+  - destruct H as (t & Hf & _ & _ & _ & _ & Ht & _). exfalso. apply Ha. rewrite Ht.
+    destruct (N.eq_dec id i) as [->|Hn]; [congruence|]. rewrite tfind_tupdate_other by exact Hn. exact Hb.
+  - destruct H as [Ht _]. exfalso. apply Ha. rewrite Ht. exact Hb.
+  - destruct H as [Ht _]. exfalso. apply Ha. rewrite Ht. exact Hb.
+Qed.
+
+(* ------------------------------------------------------------------ count and uniqueness invariants *)
+Definition count_inv (s : state) : Prop := token_count s = N.of_nat (length (tokens s)).
+Definition keys_unique (s : state) : Prop := NoDup (map fst (tokens s)).
+
+Lemma instantiate_tokens ct nw b fs m c s :
+  instantiate ct nw b fs m c = Ok s ->
+  tokens s = [] /\ token_count s = 0 /\ own s = mkOwn (Some m) None None /\ frozen s = false /\
+  md_frozen s = false /\ operators s = [].
+Proof.
+  unfold instantiate. intros H. crush_handler; simpl; auto 10.
+Qed.
+
+Lemma count_inv_instantiate ct nw b fs m c s : instantiate ct nw b fs m c = Ok s -> count_inv s /\ keys_unique s.
+Proof.
+  intros H. apply instantiate_tokens in H. destruct H as (Ht & Hc & _).
+  unfold count_inv, keys_unique. rewrite Ht, Hc. simpl. split; [reflexivity | constructor].
+Qed.
+
+Lemma count_inv_step ct self e o s s' ms :
+  count_inv s -> step ct self e o s = Ok (s', ms) -> count_inv s'.
+Proof.
+  unfold count_inv. intros Hi H. apply step_exec in H. destruct H as [_ H]. apply exec_tokens in H.
+  destruct o as [i owner uri|to i|to i accepts|sp i ex|sp i|opr ex|opr|i|m|t| |new ex| | |i uri| | ];
+    try (destruct H as [-> ->]; exact Hi).
+  - destruct H as (_ & _ & -> & ->). rewrite length_tinsert, Nat2N.inj_succ, Hi. lia.
+  - destruct H as (t & _ & _ & -> & ->). rewrite length_tupdate. exact Hi.
+  - destruct H as (t & _ & _ & -> & ->). rewrite length_tupdate. exact Hi.
+  - destruct H as (t & aps & _ & _ & -> & ->). rewrite length_tupdate. exact Hi.
+  - destruct H as (t & aps & _ & _ & -> & ->). rewrite length_tupdate. exact Hi.
+  - destruct H as (t & Hf & _ & -> & Hc). rewrite (length_tremove _ _ _ Hf), Nat2N.inj_succ in Hi. lia.
+  - destruct H as (t & _ & _ & _ & _ & _ & -> & ->). rewrite length_tupdate. exact Hi.
+Qed.
+
+Lemma keys_unique_step ct self e o s s' ms :
+  keys_unique s -> step ct self e o s = Ok (s', ms) -> keys_unique s'.
+Proof.
+  unfold keys_unique. intros Hi H. apply step_exec in H. destruct H as [_ H]. apply exec_tokens in H.
+  destruct o as [i owner uri|to i|to i accepts|sp i ex|sp i|opr ex|opr|i|m|t| |new ex| | |i uri| | ];
+    try (destruct H as [-> _]; exact Hi).
+  - destruct H as (_ & Hf & -> & _). apply nodup_tinsert; assumption.
+  - destruct H as (t & _ & _ & -> & _). rewrite keys_tupdate. exact Hi.
+  - destruct H as (t & _ & _ & -> & _). rewrite keys_tupdate. exact Hi.
+  - destruct H as (t & aps & _ & _ & -> & _). rewrite keys_tupdate. exact Hi.
+  - destruct H as (t & aps & _ & _ & -> & _). rewrite keys_tupdate. exact Hi.
+  - destruct H as (t & _ & _ & -> & _). apply nodup_tremove. exact Hi.
+  - destruct H as (t & _ & _ & _ & _ & _ & -> & _). rewrite keys_tupdate. exact Hi.
+Qed.
+
+Lemma count_inv_run ct self l s : count_inv s -> count_inv (run ct self s l).
+Proof. apply (run_invariant count_inv). intros; eapply count_inv_step; eauto. Qed.
+
+Lemma keys_unique_run ct self l s : keys_unique s -> keys_unique (run ct self s l).
+Proof. apply (run_invariant keys_unique). intros; eapply keys_unique_step; eauto. Qed.
+
+Lemma count_inv_always ct self t b f m c s l :
+  instantiate ct t b f m c = Ok s ->
+  token_count (run ct self s l) = N.of_nat (length (tokens (run ct self s l))) /\
+  NoDup (map fst (tokens (run ct self s l))).
+Proof.
+  intros H. apply count_inv_instantiate in H. destruct H as [H1 H2].
+  split; [apply count_inv_run; exact H1 | apply keys_unique_run; exact H2].
+Qed.
+
+(* ------------------------------------------------------------------ freezes *)
+(* the creator-editable fields; start_trading_time is edited by the minter and is NOT one *)
+Definition creator_fields (s : state) :=
+  (ci_creator (info s), ci_description (info s), ci_image (info s), ci_external_link (info s),
+   ci_explicit (info s), ci_royalty (info s)).
+
+(* what each call does to collection info, the two freeze flags, the enable flag and ownership *)
+Lemma exec_frame self e o s s' ms :
+  exec self e o s = Ok (s', ms) ->
+  (match o with
+   | OUpdateInfo m => frozen s = false /\ ci_creator (info s) = sender e
+   | OStartTrading t => owner_is (sender e) s /\ creator_fields s' = creator_fields s /\
+                        ci_start_trading (info s') = t
+   | _ => info s' = info s
+   end) /\
+  (match o with
+   | OFreezeInfo => ci_creator (info s) = sender e /\ frozen s' = true
+   | _ => frozen s' = frozen s
+   end) /\
+  (match o with
+   | OFreezeTokenMd => ci_creator (info s) = sender e /\ funds e = [] /\ md_frozen s' = true /\ md_enabled s' = md_enabled s
+   | OEnableUpdatable => ci_creator (info s) = sender e /\ md_enabled s = false /\ md_enabled s' = true /\ md_frozen s' = md_frozen s
+   | _ => md_frozen s' = md_frozen s /\ md_enabled s' = md_enabled s
+   end) /\
+  (match o with
+   | OOwnTransfer new ex => owner_is (sender e) s /\ own s' = mkOwn (o_owner (own s)) (Some new) ex
+   | OOwnAccept => o_pending (own s) = Some (sender e) /\ own s' = mkOwn (Some (sender e)) None None
+   | OOwnRenounce => owner_is (sender e) s /\ own s' = mkOwn None None None
+   | _ => own s' = own s
+   end).
+Proof.
+  intros H.
+  destruct o as [id owner uri|to id|to id accepts|sp id ex|sp id|opr ex|opr|id|m|t| |new ex| | |id uri| | ];
+    simpl in H; try (apply quiet_ok in H; destruct H as [H ->]).
+  - unfold mint in H. crush_handler; simpl; repeat split; auto.
+  - unfold transfer in H. crush_handler; simpl; repeat split; auto.
+  - destruct accepts; [|discriminate]. apply quiet_ok in H. destruct H as [H ->].
+    unfold transfer in H. crush_handler; simpl; repeat split; auto.
+  - unfold approve in H. crush_handler; simpl; repeat split; auto.
+  - unfold approve in H. crush_handler; simpl; repeat split; auto.
+  - unfold approve_all in H. crush_handler; simpl; repeat split; auto.
+  - unfold revoke_all in H. crush_handler; simpl; repeat split; auto.
+  - unfold burn in H. crush_handler; simpl; repeat split; auto.
+  - apply uci_ok in H. tauto.
+  - unfold update_start_trading_time in H.
+    destruct (is_minter (sender e) s) eqn:Em; [|discriminate]. inversion H; subst; clear H.
+    simpl. unfold creator_fields. simpl. repeat split; auto using is_minter_true.
+  - unfold freeze_collection_info in H.
+    destruct (ci_creator (info s) =? sender e) eqn:Ec; [|discriminate]. inversion H; subst; clear H.
+    apply N.eqb_eq in Ec. simpl. repeat split; auto.
+  - unfold own_transfer in H.
+    destruct (is_minter (sender e) s) eqn:Em; [|discriminate]. inversion H; subst; clear H.
+    simpl. repeat split; auto using is_minter_true.
+  - unfold own_accept in H.
+    destruct (o_pending (own s)) as [p|] eqn:Ep; [|discriminate].
+    destruct (p =? sender e) eqn:Es; simpl in H; [|discriminate]. apply N.eqb_eq in Es. subst p.
+    destruct (match o_expiry (own s) with Some x => is_expired (now e) x | None => false end); [discriminate|].
+    inversion H; subst; clear H. simpl. repeat split; auto.
+  - unfold own_renounce in H.
+    destruct (is_minter (sender e) s) eqn:Em; [|discriminate]. inversion H; subst; clear H.
+    simpl. repeat split; auto using is_minter_true.
+  - unfold update_token_metadata in H. crush_handler; simpl; repeat split; auto.
+  - unfold freeze_token_metadata in H. apply bind_ok in H. destruct H as [[] [Hp H]].
+    unfold nonpayable in Hp. destruct (funds e) eqn:Efu; [|discriminate].
+    destruct (ci_creator (info s) =? sender e) eqn:Ec; [|discriminate]. inversion H; subst; clear H.
+    apply N.eqb_eq in Ec. simpl. repeat split; auto.
+  - unfold enable_updatable in H.
+    destruct (md_enabled s) eqn:Eme; [discriminate|].
+    destruct (ci_creator (info s) =? sender e) eqn:Ec; simpl in H; [|discriminate].
+    apply bind_ok in H. destruct H as [ms' [_ H]]. inversion H; subst; clear H.
+    apply N.eqb_eq in Ec. simpl. repeat split; auto.
+Qed.
+
+Lemma frozen_step ct self e o s s' ms :
+  frozen s = true -> step ct self e o s = Ok (s', ms) ->
+  creator_fields s' = creator_fields s /\ frozen s' = true.
+Proof.
+  intros Hf H. apply step_exec in H. destruct H as [_ H]. apply exec_frame in H.
+  destruct H as (Hi & Hz & _ & _).
+  destruct o as [id owner uri|to id|to id accepts|sp id ex|sp id|opr ex|opr|id|m|t| |new ex| | |id uri| | ];
+    try (split; [unfold creator_fields; rewrite Hi; reflexivity | rewrite Hz; exact Hf]).
+  - destruct Hi as [Hi _]. congruence.
+  - destruct Hi as (_ & Hi & _). split; [exact Hi | rewrite Hz; exact Hf].
+  - destruct Hz as [_ Hz]. split; [unfold creator_fields; rewrite Hi; reflexivity | exact Hz].
+Qed.
+
+Lemma frozen_is_final ct self l : forall s,
+  frozen s = true ->
+  creator_fields (run ct self s l) = creator_fields s /\ frozen (run ct self s l) = true.
+Proof.
+  induction l as [|eo l IH]; intros s Hf; simpl; [auto|].
+  destruct (apply_cases ct self s eo) as [-> | [ms H]]; [apply IH; exact Hf|].
+  destruct (frozen_step _ _ _ _ _ _ _ Hf H) as [Hc Hf'].
+  destruct (IH _ Hf') as [Hc' Hf'']. split; [congruence | exact Hf''].
+Qed.
+
+Lemma freeze_ok ct self e s s' ms :
+  step ct self e OFreezeInfo s = Ok (s', ms) ->
+  ci_creator (info s) = sender e /\ frozen s' = true /\ info s' = info s /\ tokens s' = tokens s /\ own s' = own s.
+Proof.
+  intros H. apply step_exec in H. destruct H as [_ H].
+  pose proof (exec_frame _ _ _ _ _ _ H) as (Hi & (Hc & Hz) & _ & Ho).
+  pose proof (exec_tokens _ _ _ _ _ _ H) as [Ht _]. auto.
+Qed.
+
+(* any change to a creator-editable field comes from the creator's own update on an
+   unfrozen collection *)
+Lemma creator_fields_change ct self e o s s' ms :
+  step ct self e o s = Ok (s', ms) -> creator_fields s' <> creator_fields s ->
+  (exists m, o = OUpdateInfo m) /\ ci_creator (info s) = sender e /\ frozen s = false.
+Proof.
+  intros H Hne. apply step_exec in H. destruct H as [_ H]. apply exec_frame in H.
+  destruct H as (Hi & _).
+  destruct o as [id owner uri|to id|to id accepts|sp id ex|sp id|opr ex|opr|id|m|t| |new ex| | |id uri| | ];
+    try (exfalso; apply Hne; unfold creator_fields; rewrite Hi; reflexivity).
+  - destruct Hi as [Hf Hc]. eauto.
+  - destruct Hi as (_ & Hi & _). contradiction.
+Qed.
+
+(* ------------------------------------------------------------------ token metadata *)
+Lemma update_metadata_ok ct self e id uri s s' ms :
+  step ct self e (OUpdateTokenMd id uri) s = Ok (s', ms) ->
+  ct = Updatable /\ ci_creator (info s) = sender e /\ md_enabled s = true /\ md_frozen s = false /\
+  funds e = [] /\
+  exists t, tfind id (tokens s) = Some t /\
+            tfind id (tokens s') = Some (mkTok (k_owner t) (k_approvals t) uri) /\
+            (forall id', id' <> id -> tfind id' (tokens s') = tfind id' (tokens s)) /\
+            token_count s' = token_count s /\ info s' = info s /\ own s' = own s.
+Proof.
+  intros H. apply step_exec in H. destruct H as [Hs H].
+  pose proof (exec_frame _ _ _ _ _ _ H) as (Hi & _ & _ & Ho).
+  apply exec_tokens in H. destruct H as (t & Hf & Hc & Hmf & Hme & Hfu & Ht & Hn).
+  split; [destruct ct; simpl in Hs; try discriminate; reflexivity|].
+  repeat (split; [assumption|]). exists t. rewrite Ht.
+  split; [exact Hf|]. split; [eapply tfind_tupdate_same; eauto|].
+  split; [intros id' Hne; apply tfind_tupdate_other; exact Hne | auto].
+Qed.
+
+Lemma md_frozen_step ct self e o s s' ms :
+  md_frozen s = true -> step ct self e o s = Ok (s', ms) -> md_frozen s' = true.
+Proof.
+  intros Hf H. apply step_exec in H. destruct H as [_ H]. apply exec_frame in H.
+  destruct H as (_ & _ & Hm & _).
+  destruct o; try (destruct Hm as [Hm _]; rewrite Hm; exact Hf).
+  - tauto.
+  - destruct Hm as (_ & _ & _ & Hm). rewrite Hm. exact Hf.
+Qed.
+
+(* what one call does to an existing token: unless it is burned by this very call, it is
+   still there; its URI moves only through an authorised metadata update, its owner only
+   through transfer/send (which sg721-nt does not have) *)
+Lemma step_token ct self e o s s' ms id t :
+  keys_unique s -> step ct self e o s = Ok (s', ms) -> tfind id (tokens s) = Some t ->
+  (o = OBurn id /\ tfind id (tokens s') = None) \/
+  exists t', tfind id (tokens s') = Some t' /\
+    (k_uri t' = k_uri t \/
+     (exists u, o = OUpdateTokenMd id u) /\ ct = Updatable /\ md_frozen s = false /\ md_enabled s = true /\
+     ci_creator (info s) = sender e) /\
+    (k_owner t' = k_owner t \/
+     ((exists to, o = OTransfer to id) \/ (exists to acc, o = OSend to id acc)) /\ ct <> NT).
+Proof.
+  intros Hu H Hf. apply step_exec in H. destruct H as [Hs H]. apply exec_tokens in H.
+  destruct o as [i owner uri|to i|to i accepts|sp i ex|sp i|opr ex|opr|i|m|tm| |new ex| | |i uri| | ];
+    try (destruct H as [Ht _]; right; exists t; rewrite Ht; auto).
+  - (* mint *) destruct H as (_ & Hn & Ht & _). right. exists t. rewrite Ht.
+    rewrite tfind_tinsert_other by congruence. auto.
+  - (* transfer *) destruct H as (x & Hx & _ & Ht & _). right. rewrite Ht.
+    destruct (N.eq_dec id i) as [->|Hne].
+    + eexists. split; [eapply tfind_tupdate_same; eauto|]. simpl.
+      rewrite Hx in Hf. inversion Hf; subst. split; [auto|].
+      right. split; [left; eauto | destruct ct; simpl in Hs; congruence].
+    + exists t. rewrite tfind_tupdate_other by exact Hne. auto.
+  - (* send *) destruct H as (x & Hx & _ & Ht & _). right. rewrite Ht.
+    destruct (N.eq_dec id i) as [->|Hne].
+    + eexists. split; [eapply tfind_tupdate_same; eauto|]. simpl.
+      rewrite Hx in Hf. inversion Hf; subst. split; [auto|].
+      right. split; [right; eauto | destruct ct; simpl in Hs; congruence].
+    + exists t. rewrite tfind_tupdate_other by exact Hne. auto.
+  - (* approve *) destruct H as (x & aps & Hx & _ & Ht & _). right. rewrite Ht.
+    destruct (N.eq_dec id i) as [->|Hne].
+    + eexists. split; [eapply tfind_tupdate_same; eauto|]. simpl.
+      rewrite Hx in Hf. inversion Hf; subst. auto.
+    + exists t. rewrite tfind_tupdate_other by exact Hne. auto.
+  - (* revoke *) destruct H as (x & aps & Hx & _ & Ht & _). right. rewrite Ht.
+    destruct (N.eq_dec id i) as [->|Hne].
+    + eexists. split; [eapply tfind_tupdate_same; eauto|]. simpl.
+      rewrite Hx in Hf. inversion Hf; subst. auto.
+    + exists t. rewrite tfind_tupdate_other by exact Hne. auto.
+  - (* burn *) destruct H as (x & Hx & _ & Ht & _). rewrite Ht.
+    destruct (N.eq_dec id i) as [->|Hne].
+    + left. split; [reflexivity | apply tfind_tremove_same; exact Hu].
+    + right. exists t. rewrite tfind_tremove_other by exact Hne. auto.
+  - (* update token metadata *)
+    destruct H as (x & Hx & Hc & Hmf & Hme & _ & Ht & _). right. rewrite Ht.
+    destruct (N.eq_dec id i) as [->|Hne].
+    + eexists. split; [eapply tfind_tupdate_same; eauto|]. simpl.
+      rewrite Hx in Hf. inversion Hf; subst. split; [|auto].
+      right. split; [eauto|]. split; [destruct ct; simpl in Hs; congruence | auto].
+    + exists t. rewrite tfind_tupdate_other by exact Hne. auto.
+Qed.
+
+(* the token exists in every state the history passes through *)
+Fixpoint alive_through (ct : ctype) (self : addr) (id : N) (s : state) (l : list (env * op)) : Prop :=
+  match l with
+  | [] => True
+  | eo :: r => tfind id (tokens (apply ct self s eo)) <> None /\ alive_through ct self id (apply ct self s eo) r
+  end.
+
+(* generic: a per-token quantity that single calls preserve on live tokens is constant
+   for as long as the token lives *)
+Lemma token_constant ct self id (P : state -> Prop) (f : token -> N + unit) :
+  (forall e o s s' ms, P s -> step ct self e o s = Ok (s', ms) -> P s') ->
+  (forall e o s s' ms t t', P s -> keys_unique s -> step ct self e o s = Ok (s', ms) ->
+      tfind id (tokens s) = Some t -> tfind id (tokens s') = Some t' -> f t' = f t) ->
+  forall l s t, P s -> keys_unique s -> tfind id (tokens s) = Some t -> alive_through ct self id s l ->
+  exists t', tfind id (tokens (run ct self s l)) = Some t' /\ f t' = f t.
+Proof.
+  intros HP Hstep l. induction l as [|eo l IH]; intros s t Hp Hu Hf Ha; simpl.
+  - exists t. auto.
+  - destruct Ha as [Hlive Ha].
+    destruct (apply_cases ct self s eo) as [Heq | [ms H]].
+    + rewrite Heq in *. eapply IH; eauto.
+    + destruct (tfind id (tokens (apply ct self s eo))) as [t1|] eqn:E1; [|congruence].
+      assert (Hft : f t1 = f t) by (eapply Hstep; eauto).
+      destruct (IH (apply ct self s eo) t1) as [t2 [H2 Hf2]]; eauto using keys_unique_step.
+      exists t2. split; [exact H2 | congruence].
+Qed.
+
+Definition owner_tag (t : token) : N + unit := inl (k_owner t).
+Definition uri_tag (t : token) : N + unit := match k_uri t with Some u => inl u | None => inr tt end.
+
+Lemma uri_tag_inj t t' : uri_tag t' = uri_tag t -> k_uri t' = k_uri t.
+Proof.
+  unfold uri_tag. destruct (k_uri t'), (k_uri t); intros H; inversion H; reflexivity.
+Qed.
+
+(* sg721-nt: a token's owner never changes between mint and burn *)
+Lemma nt_owner_constant self id l s t :
+  keys_unique s -> tfind id (tokens s) = Some t -> alive_through NT self id s l ->
+  exists t', tfind id (tokens (run NT self s l)) = Some t' /\ k_owner t' = k_owner t.
+Proof.
+  intros Hu Hf Ha.
+  destruct (token_constant NT self id (fun _ => True) owner_tag) with (l := l) (s := s) (t := t)
+    as [t' [H1 H2]]; auto.
+  - intros e o s0 s' ms t0 t1 _ Hu0 H Hf0 Hf1.
+    destruct (step_token _ _ _ _ _ _ _ _ _ Hu0 H Hf0) as [[_ Hn] | (t2 & H2 & _ & [Ho | [_ Hc]])].
+    + congruence.
+    + unfold owner_tag. congruence.
+    + congruence.
+  - exists t'. split; [exact H1|]. unfold owner_tag in H2. congruence.
+Qed.
+
+(* once token metadata is frozen (or on a collection type without metadata updates) the
+   URI of a token never changes while it lives; the freeze flag itself is final *)
+Lemma metadata_frozen_final ct self id l s t :
+  (ct <> Updatable \/ md_frozen s = true) ->
+  keys_unique s -> tfind id (tokens s) = Some t -> alive_through ct self id s l ->
+  (exists t', tfind id (tokens (run ct self s l)) = Some t' /\ k_uri t' = k_uri t) /\
+  (md_frozen s = true -> md_frozen (run ct self s l) = true).
+Proof.
+  intros Hfz Hu Hf Ha. split.
+  - destruct (token_constant ct self id (fun s => ct <> Updatable \/ md_frozen s = true) uri_tag)
+      with (l := l) (s := s) (t := t) as [t' [H1 H2]]; auto.
+    + intros e o s0 s' ms [Hc|Hm] H; [left; exact Hc | right; eapply md_frozen_step; eauto].
+    + intros e o s0 s' ms t0 t1 Hp Hu0 H Hf0 Hf1.
+      destruct (step_token _ _ _ _ _ _ _ _ _ Hu0 H Hf0) as [[_ Hn] | (t2 & H2 & [Huri | (_ & Hc & Hm & _)] & _)].
+      * congruence.
+      * unfold uri_tag. rewrite H2 in Hf1. inversion Hf1; subst. rewrite Huri. reflexivity.
+      * destruct Hp as [Hp|Hp]; congruence.
+    + exists t'. split; [exact H1 | apply uri_tag_inj; exact H2].
+  - intros Hm. apply (run_invariant (fun s => md_frozen s = true)); [|exact Hm].
+    intros; eapply md_frozen_step; eauto.
+Qed.
+
+Lemma freeze_metadata_ok ct self e s s' ms :
+  step ct self e OFreezeTokenMd s = Ok (s', ms) ->
+  ct = Updatable /\ ci_creator (info s) = sender e /\ md_frozen s' = true /\ tokens s' = tokens s.
+Proof.
+  intros H. apply step_exec in H. destruct H as [Hs H].
+  pose proof (exec_frame _ _ _ _ _ _ H) as (_ & _ & (Hc & _ & Hm & _) & _).
+  pose proof (exec_tokens _ _ _ _ _ _ H) as [Ht _].
+  split; [destruct ct; simpl in Hs; try discriminate; reflexivity | auto].
+Qed.
+
+(* the minter (cw-ownable owner) changes only through the two-step hand-over or a renounce *)
+Lemma minter_change ct self e o s s' ms :
+  step ct self e o s = Ok (s', ms) -> o_owner (own s') <> o_owner (own s) ->
+  (o = OOwnAccept /\ o_pending (own s) = Some (sender e) /\ o_owner (own s') = Some (sender e)) \/
+  (o = OOwnRenounce /\ o_owner (own s) = Some (sender e) /\ o_owner (own s') = None).
+Proof.
+  intros H Hne. apply step_exec in H. destruct H as [_ H]. apply exec_frame in H.
+  destruct H as (_ & _ & _ & Ho).
+  destruct o as [id owner uri|to id|to id accepts|sp id ex|sp id|opr ex|opr|id|m|t| |new ex| | |id uri| | ];
+    try (exfalso; apply Hne; rewrite Ho; reflexivity).
+  - destruct Ho as [_ Ho]. exfalso. apply Hne. rewrite Ho. reflexivity.
+  - destruct Ho as [Hp Ho]. left. rewrite Ho. auto.
+  - destruct Ho as [Hp Ho]. right. rewrite Ho. auto.
+Qed.
